@@ -1,8 +1,15 @@
 #!/bin/bash
-# usage: tools/sweep.sh <seed> [tier]  -- runs every claimed check once, prints id rc secs
+# usage: tools/sweep.sh <seed> [tier]  -- runs every claimed check and sub-check once against /repo, prints id rc secs
 seed=$1; tier=${2:-quick}
 cd /verif
-for id in $(/venv/bin/python -c "import json;r=json.load(open('ready.json'));print(' '.join((r if isinstance(r,list) else r['ready'])+['C05S','C08S','C11S']))"); do
+ids=$(cd harness && /venv/bin/python -c "
+import sys,json; sys.path.insert(0,'.'); import core
+r=json.load(open('../ready.json')); ids=r if isinstance(r,list) else r['ready']
+out=[]
+for i in ids:
+    out.append(i); out+=list(getattr(core.load_prop(i),'also',[]))
+print(' '.join(out))" 2>/dev/null)
+for id in $ids; do
   t0=$(date +%s)
   VERIF_SEED=$seed ./check $id --tier $tier > /tmp/sweep-$seed-$id.out 2>&1
   rc=$?
